@@ -480,6 +480,18 @@ def run(ctx):
                                              (o.get("dest_build_err") or "")[-300:])], families=[]))
             if o.get("dest_build") is not None:
                 evaluated += 1
+    if ctx.pid == "C14":
+        cs = stage_cli.run(ctx.tools, ctx.seed, ctx.tier)
+        for o in cs["obs"]:
+            if o.get("cwd_same") is False:
+                failures.append(dict(case=dict(case=dict(id=o["name"], args=o["args"], pkg="", stub=False, skip=False,
+                                                         resets=False, flags=o["flags"]), text=o.get("cwd_diff"), facts={}, src={}),
+                                     fails=[("moq %s store %s, run from the module root under go generate's environment, does "
+                                             "not print what moq %s . %s prints inside the package directory"
+                                             % (" ".join(o["flags"]), " ".join(o["args"]), " ".join(o["flags"]), " ".join(o["args"])),
+                                             "output depends on working directory or environment")], families=[]))
+            if o.get("cwd_same") is not None:
+                evaluated += 1
     if ctx.pid in ("C08", "C16"):
         # flag -> Config plumbing in main.go: the CLI must produce what the library produces for the
         # configuration the flags are documented to select
@@ -546,9 +558,12 @@ def cli_oracle(pid, o, groups):
                 a, b = o["changed"][outkey]
                 if not (o["rm"] and b is None):
                     fails.append(("failing run changed the -out file (%s -> %s)" % (a, b), "out file changed on failure"))
-            created = [k for k, (a, b) in o["changed"].items() if a is None and k != outkey]
-            if created and "gen" in (o.get("fail_stage") or "gen"):
-                pass
+            # "failures write nothing": a failing run may have created directories leading to -out, never a file
+            created = [k for k, (a, b) in o["changed"].items()
+                       if a is None and k != outkey and not k.endswith("/") and not k.endswith("#mode") and b != "dir"]
+            if created:
+                fails.append(("failing run left a new file behind: %s" % ", ".join(sorted(created)[:3]),
+                              "file created on failure"))
         else:
             if out:
                 if o["out_after"] is None:
